@@ -6,6 +6,7 @@ pub mod gen;
 pub mod mon;
 pub mod plug;
 pub mod pool;
+pub mod psrc;
 pub mod rng;
 pub mod val;
 
